@@ -42,9 +42,25 @@ fn guard<T>(panics: &mut Vec<String>, what: &str, f: impl FnOnce() -> Result<T, 
     }
 }
 
+thread_local! {
+    /// path values yielded by the snapshots' own walks (keep_paths mode): a later snapshot probes
+    /// through an equal kept value instead of a freshly joined one
+    static KEPT_SNAP: std::cell::RefCell<std::collections::HashMap<String, VfsPath>> = std::cell::RefCell::new(Default::default());
+}
+
+pub fn clear_kept_snap() {
+    KEPT_SNAP.with(|k| k.borrow_mut().clear());
+}
+
 pub fn probe(root: &VfsPath, p: &str, full: bool, panics: &mut Vec<String>) -> Entry {
     let vp = match resolve(root, p) {
-        Ok(v) => v,
+        Ok(v) => {
+            let kept = if crate::ops::KEEP_PATHS.with(|c| c.get()) { KEPT_SNAP.with(|k| k.borrow().get(v.as_str()).cloned()) } else { None };
+            match kept {
+                Some(k) if k == v => k,
+                _ => v,
+            }
+        }
         Err(e) => {
             let ei = err_info(&e);
             return Entry {
@@ -105,7 +121,18 @@ pub fn snapshot(root: &VfsPath, universe: &BTreeSet<String>, full: bool, with_wa
         let w = guard(&mut panics, "walk_dir", || {
             let it = root.walk_dir().map_err(|e| err_info(&e))?;
             let mut items = vec![];
+            let keep = crate::ops::KEEP_PATHS.with(|c| c.get());
             for x in it {
+                if keep {
+                    if let Ok(c) = &x {
+                        KEPT_SNAP.with(|k| {
+                            let mut k = k.borrow_mut();
+                            if k.len() < 512 {
+                                k.insert(c.as_str().to_string(), c.clone());
+                            }
+                        });
+                    }
+                }
                 items.push(x.map(|c| c.as_str().to_string()).map_err(|e| err_info(&e)));
                 if items.len() > 20_000 {
                     break;
